@@ -303,6 +303,19 @@ func init() {
 		return out
 	}
 	in["(*strings.Builder).copyCheck"] = func(fr *frame, a []value) value { return nil }
+	in["(*strings.Builder).String"] = func(fr *frame, a []value) value {
+		st := (*a[0].(*value)).(structure)
+		for _, f := range st {
+			if b, ok := f.([]value); ok {
+				return mkString(b)
+			}
+		}
+		return ""
+	}
+	in["strings.Clone"] = func(fr *frame, a []value) value { return a[0] }
+	in["internal/stringslite.Clone"] = func(fr *frame, a []value) value { return a[0] }
+	in["unique.Make[string]"] = nil
+	delete(in, "unique.Make[string]")
 	in["unsafe.String"] = nil
 	delete(in, "unsafe.String")
 	in["errors.New"] = func(fr *frame, a []value) value {
